@@ -1,6 +1,7 @@
 /- Line-protocol verbs for C18 (the whole-pipeline verb is `REQ process`, Driver/Req.lean). -/
 import FwdVerif.Model.C18
 import FwdVerif.Model.C18Err
+import FwdVerif.Model.C18Tag
 import FwdVerif.Driver.Req
 
 namespace FwdVerif
@@ -91,6 +92,20 @@ def handle : List String → String
       let chain := viaChain ls
       let v := loopClass (hs != 0) chain
       s!"{v.1} {v.2} {hexOfBytes (loopErr chain).text}"
+    | _, _ => "bad-op"
+  | ["tags", mode, n, sched] =>
+    -- first requests of a fresh instance (Model/C18Tag.lean): `n` requests, `sched` = whose step is next;
+    -- answer: number of different tags in use, number of requests holding one
+    match natOf n, natList sched with
+    | some n, some sc =>
+      let name := bs "fwd"
+      let rnd : Nat → Bytes := fun k => List.replicate (k + 1) 97
+      match (if mode == "eager" then some (constructEager name rnd n)
+             else if mode == "lazy" then some (constructLazy n) else none) with
+      | some s0 =>
+        let s := tagRun name rnd s0 sc
+        s!"{distinctTags s} {(tagsHeld s).length}"
+      | none => "bad-op"
     | _, _ => "bad-op"
   | "connect" :: toks =>
     -- one CONNECT under a configuration: outcome + Via lines of the head the upstream proxy receives
